@@ -15,6 +15,17 @@ import json, os, shutil, subprocess, sys, time
 # tools/evalqueue.sh when the queue is done
 ENV = dict(os.environ, GOFLAGS="-mod=mod", GOPROXY="off", GOSUMDB="off", GOTOOLCHAIN="local", GOCACHE="/tmp/ev/gocache")
 
+def _prune_cache(limit_gb=30):
+    # scratch worktrees live at changing paths, every one of them adds its own entries to the build cache
+    import subprocess as _sp
+    try:
+        kb = int(_sp.run("du -sk /tmp/ev/gocache 2>/dev/null | cut -f1", shell=True, capture_output=True, text=True).stdout.strip() or 0)
+        if kb > limit_gb * 1024 * 1024:
+            _sp.run("rm -rf /tmp/ev/gocache", shell=True)
+    except Exception:
+        pass
+_prune_cache()
+
 def sh(cmd, cwd=None, timeout=1800):
     t0 = time.time()
     try:
